@@ -85,10 +85,12 @@ OccFrom(rs, id, r) ==
   ELSE Cardinality({q \in DOMAIN rs[r].g : rs[r].g[q] = id}) + OccFrom(rs, id, r + 1)
 Occ(rs, id) == OccFrom(rs, id, 1)
 
-(* where does a foreign id come from (cause field of a mixing violation) *)
-Origin(inp, key, id) ==
+(* where does the element id, found in a result of `key` during the iteration spanning steps *)
+(* a..b, come from (cause field of a mixing violation)                                       *)
+Origin(inp, key, id, a, b) ==
   IF \E i \in DOMAIN inp : IsData(inp[i]) /\ inp[i].v = id /\ inp[i].key # key THEN "other_key"
-  ELSE IF \E i \in DOMAIN inp : IsData(inp[i]) /\ inp[i].v = id THEN "other_iteration"
+  ELSE IF \E i \in (DOMAIN inp) \ (a..b) : IsData(inp[i]) /\ inp[i].v = id THEN "other_iteration"
+  ELSE IF \E i \in a..b : i \in DOMAIN inp /\ IsData(inp[i]) /\ inp[i].v = id THEN "same_iteration"
   ELSE "unknown_element"
 
 (* largest watermark consumed during steps a..b, NOTS when none *)
@@ -104,6 +106,19 @@ LastW(inp, a, b) == MaxOf({NOTS} \cup {inp[j].ts : j \in {j \in a..b : inp[j].k 
 (* keys or iterations and every aggregator is applied to exactly the       *)
 (* group's elements."      p = [n, s, exact]                               *)
 (***************************************************************************)
+(* what the aggregator of the window stream makes of a group (p.agg; absent = the collecting     *)
+(* fold of the harness): min / max are by the injective key (37 * id) % 101, as in harness-win    *)
+AggKey(x) == (37 * x) % 101
+AggOf(p, g) ==
+  LET agg == IF "agg" \in DOMAIN p THEN p.agg ELSE "fold" IN
+  CASE agg = "first" -> <<g[1]>>
+    [] agg = "last"  -> <<g[Len(g)]>>
+    [] agg = "min"   -> <<CHOOSE x \in SeqSet(g) : \A y \in SeqSet(g) : AggKey(x) <= AggKey(y)>>
+    [] agg = "max"   -> <<CHOOSE x \in SeqSet(g) : \A y \in SeqSet(g) : AggKey(x) >= AggKey(y)>>
+    [] agg = "count" -> <<Len(g)>>
+    [] OTHER         -> g
+ShowsIds(p) == ~("agg" \in DOMAIN p /\ p.agg = "count")
+
 CountKI(p, inp, outs, key, it, rs) ==
   LET a     == ItFirst(rs, it)
       rstep == ItR(rs, it)
@@ -113,13 +128,13 @@ CountKI(p, inp, outs, key, it, rs) ==
       ids   == [j \in 1..L |-> inp[xs[j]].v]
       idset == SeqSet(ids)
       J     == IF L >= p.n THEN (L - p.n) \div p.s + 1 ELSE 0         \* complete groups
-      Grp(j) == SubSeq(ids, (j - 1) * p.s + 1, (j - 1) * p.s + p.n)   \* j \in 1..J
+      Grp(j) == AggOf(p, SubSeq(ids, (j - 1) * p.s + 1, (j - 1) * p.s + p.n))   \* j \in 1..J
       Due(j) == xs[(j - 1) * p.s + p.n]                                \* arrival of its N-th element
       E     == FlatRes(outs, key, a, b)                                \* emitted before the end
       m     == Min2(Len(E), J)
       F     == IF rstep > 0 THEN FlatRes(outs, key, rstep, rstep) ELSE <<>>
       Fg    == [j \in 1..Len(F) |-> F[j].g]
-      expF  == IF p.exact \/ J * p.s >= L THEN <<>> ELSE <<SubSeq(ids, J * p.s + 1, L)>>
+      expF  == IF p.exact \/ J * p.s >= L THEN <<>> ELSE <<AggOf(p, SubSeq(ids, J * p.s + 1, L))>>
       all   == E \o F
   IN   {V("count_group_content", "wrong_elements", key, it, E[r].step, r) :
            r \in {r \in 1..m : E[r].g # Grp(r)}}
@@ -135,9 +150,9 @@ CountKI(p, inp, outs, key, it, rs) ==
                 ELSE IF expF = <<>> THEN "nothing_pending" ELSE "wrong_group",
                 key, it, rstep, Len(Fg))}
         ELSE {})
-  \cup {V("count_mixed_keys", Origin(inp, key, x[2]), key, it, all[x[1]].step, x[2]) :
+  \cup {V("count_mixed_keys", Origin(inp, key, x[2], a, ItLast(inp, rs, it)), key, it, all[x[1]].step, x[2]) :
            x \in {x \in (DOMAIN all) \X UNION {SeqSet(all[r].g) : r \in DOMAIN all} :
-                    x[2] \in SeqSet(all[x[1]].g) /\ x[2] \notin idset}}
+                    ShowsIds(p) /\ x[2] \in SeqSet(all[x[1]].g) /\ x[2] \notin idset}}
 
 CountViol(p, inp, outs) ==
   LET rs == RSteps(inp) IN
@@ -179,7 +194,7 @@ EventKI(p, inp, outs, key, it, rs) ==
       tumb  == p.slide = p.size
       (* not late: above every watermark consumed before it in this iteration *)
       OnTime(j) == inp[xs[j]].ts > LastW(inp, a, xs[j] - 1)
-  IN   {V("window_span", Origin(inp, key, x[2]), key, it, all[x[1]].step, x[2]) :
+  IN   {V("window_span", Origin(inp, key, x[2], a, last), key, it, all[x[1]].step, x[2]) :
            x \in {x \in (DOMAIN all) \X UNION {SeqSet(all[r].g) : r \in DOMAIN all} :
                     x[2] \in SeqSet(all[x[1]].g) /\ x[2] \notin idset}}
   \cup {V("window_span", "span_exceeds_size", key, it, all[r].step, r) :
@@ -217,8 +232,8 @@ EventViol(p, inp, outs) ==
 (* is not dictated: it may be output there or dropped (weakest reading),   *)
 (* but a later commit outputs the elements of ITS transaction only.        *)
 (***************************************************************************)
-RECURSIVE TxnScan(_, _, _, _, _, _, _, _)
-TxnScan(inp, outs, key, it, i, last, cur, close) ==
+RECURSIVE TxnScan(_, _, _, _, _, _, _, _, _)
+TxnScan(inp, outs, key, it, a, i, last, cur, close) ==
   IF i > last THEN {}
   ELSE
   LET e     == inp[i]
@@ -235,19 +250,19 @@ TxnScan(inp, outs, key, it, i, last, cur, close) ==
                ELSE res = <<>>
       ends  == must \/ (mine /\ e.op = 3) \/ e.k = "R"
       carried == \E r \in DOMAIN res : \E x \in SeqSet(res[r]) :
-                    x \notin SeqSet(cur1) /\ Origin(inp, key, x) = "other_iteration"
+                    x \notin SeqSet(cur1) /\ Origin(inp, key, x, a, last) = "other_iteration"
       cause == IF res = <<>> THEN "not_committed"
                ELSE IF carried THEN "carried_over_iteration"
                ELSE IF ~may THEN "unexpected_commit"
                ELSE "wrong_elements"
   IN (IF ok THEN {} ELSE {V("transaction_commit", cause, key, it, i, Len(res))})
-     \cup TxnScan(inp, outs, key, it, i + 1, last,
+     \cup TxnScan(inp, outs, key, it, a, i + 1, last,
                   IF ends THEN <<>> ELSE cur1,
                   IF ends THEN NOTS ELSE IF mine /\ e.op = 2 THEN e.opt ELSE close)
 
 TxnViol(inp, outs) ==
   LET rs == RSteps(inp) IN
-  UNION {TxnScan(inp, outs, key, it, ItFirst(rs, it), ItLast(inp, rs, it), <<>>, NOTS) :
+  UNION {TxnScan(inp, outs, key, it, ItFirst(rs, it), ItFirst(rs, it), ItLast(inp, rs, it), <<>>, NOTS) :
            key \in Keys(inp, outs), it \in 1..(Len(rs) + 1)}
 
 ---------------------------------------------------------------------------
@@ -291,10 +306,10 @@ TimeKI(pre, partition, maxc, inp, outs, key, it, rs) ==
   \cup (IF partition /\ (\A r \in DOMAIN inIt : Incr(Pos(inIt[r].g))) /\ ~Incr(Concat(1))
              /\ \A id \in idset : Occ(inIt, id) <= 1
         THEN {V(K("_order"), "across_results", key, it, last, 0)} ELSE {})
-  \cup {V(K("_dup"), Origin(inp, key, x[2]), key, it, inIt[x[1]].step, x[2]) :
+  \cup {V(K("_dup"), Origin(inp, key, x[2], a, last), key, it, inIt[x[1]].step, x[2]) :
            x \in {x \in (DOMAIN inIt) \X UNION {SeqSet(inIt[r].g) : r \in DOMAIN inIt} :
                     /\ x[2] \in SeqSet(inIt[x[1]].g) /\ x[2] \notin idset
-                    /\ Origin(inp, key, x[2]) # "other_iteration"}}    \* that one is *_not_flushed
+                    /\ Origin(inp, key, x[2], a, last) # "other_iteration"}}    \* that one is *_not_flushed
   \cup (IF rstep = 0 THEN {} ELSE
         UNION {LET id == inp[xs[j]].v  cin == Occ(inIt, id)  caf == Occ(after, id) IN
                (IF caf > 0 THEN {V(K("_not_flushed"), "after_restart", key, it, xs[j], id)} ELSE {})
